@@ -49,6 +49,9 @@ def make_cfg(seed, i):
         cfg["upper"] = (z + w_hi).tolist()
         if r() < 0.3:
             cfg["upper"] = None
+    if cfg["lower"] is not None and cfg["upper"] is not None and r() < 0.15:
+        cfg.setdefault("args", {})
+        cfg["_scaling_ignored"] = True        # scaling_within_bounds with projections: documented to be ignored (with a warning)
     # starting point: feasible / hair outside / far
     u = r()
     P = [gen.make_projection(s) for s in sets]
@@ -73,6 +76,8 @@ def make_cfg(seed, i):
     cfg["x0"] = x0.tolist()
     cfg["args"] = dict(rhobeg=float(0.3 * margin), rhoend=float(0.3 * margin * 10.0 ** rng.integers(-6, -2)),
                        maxfun=int(gen.pick(rng, [12, 20, 30])))
+    if cfg.pop("_scaling_ignored", False):
+        cfg["args"]["scaling_within_bounds"] = True
     if r() < 0.6:
         up["dykstra.d_tol"] = float(gen.pick(rng, [1e-8, 1e-10, 1e-12]))
     if r() < 0.5:
